@@ -25,6 +25,27 @@ DIMS = [
 NONNEG = ('common::points::dist', 'Matrix::norm', 'Matrix::magnitude', 'f64::abs', 'f64::sqrt')
 
 
+def curve2_closedness_rules(cx, b, aggs):
+    """closing vertex and the closedness flag of Curve2::from_points (shared with C04: portions are rebuilt through from_points and every
+    portioning decision reads is_closed)"""
+    # closing vertex
+    pushes = [s for s in b.calls('Vec::push') if match('(unwrap (call slice::first _))', cx.arg(s, 1)) is not None]
+    okc = len(pushes) == 1
+    if okc:
+        pb = pushes[0].bb
+        okc = cx.guarded(b, pb, '(param force_closed)', True) is not None and \
+            cx.guarded(b, pb, '(lt (param tol) (call *points::dist (unwrap (call slice::first $p)) (unwrap (call slice::last $p))))', True) is not None
+    cx.ob('GUARD', 'Curve2::from_points:closing-vertex', okc, 'a copy of the first vertex is appended exactly under force_closed and dist(first,last) > tol',
+          where=pushes[0] if pushes else b.file)
+    for s in aggs:
+        ic = dict(cx.aggval(s)[2:]).get('is_closed')
+        line = dict(cx.aggval(s)[2:]).get('line')
+        e2 = find('(le (call *points::dist (index $p 0) (unwrap (call slice::last $p))) (param tol))', ic)
+        okp = e2 is not None and match('(call Polyline::new $p _)', line, {'p': e2[1]['p']}) is not None
+        cx.ob('EXPR', 'Curve2::from_points:is_closed', okp,
+              'is_closed = dist(pts[0], last) <= tol evaluated on the final point list (after the optional closing vertex), same tol', where=s, found=ic)
+
+
 def run(cx):
     for D in DIMS:
         mod, C, S, It, d = D['mod'], D['C'], D['S'], D['It'], D['d']
@@ -103,22 +124,7 @@ def run(cx):
             for s in b.calls('Polyline::new'):
                 cx.ob('GUARD', f'{C}::from_points:polyline-after-check', cx.guarded(b, s.bb, '(lt (len _) 2)', False) is not None, 'the polyline is built only with at least 2 points', where=s)
             if d == '2D':
-                # closing vertex
-                pushes = [s for s in b.calls('Vec::push') if match('(unwrap (call slice::first _))', cx.arg(s, 1)) is not None]
-                okc = len(pushes) == 1
-                if okc:
-                    pb = pushes[0].bb
-                    okc = cx.guarded(b, pb, '(param force_closed)', True) is not None and \
-                        cx.guarded(b, pb, '(lt (param tol) (call *points::dist (unwrap (call slice::first $p)) (unwrap (call slice::last $p))))', True) is not None
-                cx.ob('GUARD', 'Curve2::from_points:closing-vertex', okc, 'a copy of the first vertex is appended exactly under force_closed and dist(first,last) > tol',
-                      where=pushes[0] if pushes else b.file)
-                for s in aggs:
-                    ic = dict(cx.aggval(s)[2:]).get('is_closed')
-                    line = dict(cx.aggval(s)[2:]).get('line')
-                    e2 = find('(le (call *points::dist (index $p 0) (unwrap (call slice::last $p))) (param tol))', ic)
-                    okp = e2 is not None and match('(call Polyline::new $p _)', line, {'p': e2[1]['p']}) is not None
-                    cx.ob('EXPR', 'Curve2::from_points:is_closed', okp,
-                          'is_closed = dist(pts[0], last) <= tol evaluated on the final point list (after the optional closing vertex), same tol', where=s, found=ic)
+                curve2_closedness_rules(cx, b, aggs)
 
         # ---------------------------------------------------------------- at_length
         b = cx.fn(f'{CP}::at_length')
